@@ -221,7 +221,7 @@ class Outcome:
         self.evaluations = 0; self.nontrivial = set(); self.samples = []; self.distribution = {}
         self.disagreements = []   # {describe, input, impl, model, stream}
         self.failing = []         # {describe, input, impl, expected, stream}
-        self.streams = {}; self.exhaustive = False; self.notes = []
+        self.streams = {}; self.exhaustive = False; self.notes = []; self.judged = 0
     def count(self, key, n=1): self.distribution[key] = self.distribution.get(key, 0) + n
     def stream(self, name, n): self.streams[name] = self.streams.get(name, 0) + n; self.evaluations += n
 
@@ -239,6 +239,7 @@ def differential(out, stream, cases, impl_out, model_out, expected, describe, no
         if m is not None and i != m and len(out.disagreements) < 50:
             out.disagreements.append({"stream": stream, "describe": d, "input": c, "impl": clip(i), "model": clip(m)})
         elif m is not None and i != m: out.disagreements.append(None)
+        if e != unspecified: out.judged += 1
         j = impl_spec[k] if impl_spec is not None else i      # the projection the Spec speaks about, when it differs from the view
         if e != unspecified and j != e:
             if len(out.failing) < 50:
